@@ -39,7 +39,7 @@ CLAIMED = {
             "(first-order conditions derived, not assumed); MGDA on two rows is exactly non-conflicting after one "
             "step. The Frank-Wolfe rate is proved too (C04_mgda_rate): with epsilon = 0, |A(J)|^2 - |x*|^2 <= 8 s^2/(K+2) for every K and every "
             "upper bound s of sigma_max. The minimum-norm point x* EXISTS (C04_min_norm_point_exists: induction on the rows with one-dimensional compactness, no choice axiom; "
-            "uses Classical_Prop.classic), so the MGDA theorems also hold without that hypothesis (C04_mgda_rate_unconditional, C04_mgda_allowance_unconditional). CAGrad's solver answer is a contract. Direct oracle: the stated allowance on random matrices of "
+            "uses Classical_Prop.classic), so the MGDA theorems also hold without that hypothesis (C04_mgda_rate_unconditional, C04_mgda_allowance_unconditional). CAGrad's conic program has an optimum (C04_cagrad_program_has_an_optimum) and every optimum is non-conflicting for c>=1 (C04_cagrad_unconditional); that the SOLVER returns one is a contract. Direct oracle: the stated allowance on random matrices of "
             "all categories and exhaustively on all {-1,0,1} matrices (2x2,2x3,3x2 quick; up to 3x3 thorough), "
             "at scale 1 and at sigma_max just above norm_eps, all MGDA budgets 0..1000.",
             "DESIGN.md §8 C04, §13",
